@@ -75,6 +75,7 @@ type atClause struct {
 	stmt string
 	nth  int
 	used bool
+	eff  map[interface{}]string // statement text with renamed locals substituted (per function and position)
 }
 
 type funcContract struct {
@@ -139,8 +140,9 @@ type lemmaDecl struct {
 }
 
 type localAnchor struct {
-	typ string
-	ord int
+	typ  string
+	ord  int
+	ords []int // all declarations of the name (a loop variable declared in several loops)
 }
 
 type literalCheck struct {
@@ -274,11 +276,16 @@ func (db *specDB) loadSpecFile(path string, pkgName string, isGo bool) error {
 			}
 			tk := strings.Join(f[1:], " ")
 			j := strings.LastIndex(tk, "#")
-			k, _ := strconv.Atoi(tk[j+1:])
+			// #k or #k1,k2,...: the ordinals (among the named locals of that type) of every declaration of the name
+			var ords []int
+			for _, part := range strings.Split(tk[j+1:], ",") {
+				k, _ := strconv.Atoi(strings.TrimSpace(part))
+				ords = append(ords, k)
+			}
 			if cur.localAnchors == nil {
 				cur.localAnchors = map[string]localAnchor{}
 			}
-			cur.localAnchors[f[0]] = localAnchor{typ: strings.TrimSpace(tk[:j]), ord: k}
+			cur.localAnchors[f[0]] = localAnchor{typ: strings.TrimSpace(tk[:j]), ord: ords[0], ords: ords}
 		case "wrap64":
 			cur.wrap64 = true
 		case "inline":
